@@ -11,7 +11,9 @@ from vlib.hsupport import OutOfRange, fixed, judge, note, untraced
 
 SEL_LEN = 12
 BUILTIN = {"Int", "String", "Boolean", "Float", "Any", "List", "Set", "Map", "Tuple", "Nothing"}
-TARGET_MODULES = ["pkg/m", "pkg/n", "pkg/m2", "pkg/deep/k", "ext/lib"]  # same module, sibling, prefix-collision, sub-package, foreign
+# same module, sibling, prefix-collision, sub-package, foreign, nowhere (a bare name that is no class at all: the "type" the
+# analyser infers for `return x` of a local variable, or a docstring-only type name)
+TARGET_MODULES = ["pkg/m", "pkg/n", "pkg/m2", "pkg/deep/k", "ext/lib", None]
 TARGET_NAMES = ["X", "Foo", "my_cls"]
 DECOYS = [None, ("pkg/u", "XFoo"), ("pkg/u", "X"), ("pkg/deep/u", "Foo")]
 QUALS = ["full", "partial", "bare"]
@@ -28,6 +30,11 @@ def build(sel: List[int], cur: Cur):
     foreign = tmod == "ext/lib"
     if foreign and (reexport or qual != "full"):
         raise OutOfRange
+    nowhere = tmod is None
+    if nowhere:
+        if reexport or qual != "bare":
+            raise OutOfRange
+        tmod = "nowhere"
     if tmod == "pkg/m" and reexport:
         raise OutOfRange
     tq = tmod.replace("/", ".") + "." + tname
@@ -41,7 +48,7 @@ def build(sel: List[int], cur: Cur):
 
     if decoy is not None and decoy_first:
         add_decoy()
-    if not foreign:
+    if not foreign and not nowhere:
         tm = m if tmod == "pkg/m" else mk_module(api, tmod)
         mk_class(api, tm, tname)
     if decoy is not None and not decoy_first:
@@ -69,6 +76,8 @@ def _cause(cfg, convert: bool) -> str:
         return "class-name-is-suffix-of-unrelated-class-name"
     if cfg["decoy"] is not None and cfg["decoy"][1] == cfg["tname"]:
         return "same-class-name-in-unrelated-module"
+    if cfg["tmod"] == "nowhere":
+        return "bare-name-of-no-class"
     if cfg["qual"] != "full":
         return f"{cfg['qual']}-qualified-reference"  # only docstring-derived types are not fully qualified
     return "plain"
